@@ -1035,7 +1035,7 @@ class Engine:
                 bvs.append(b)
                 n = z3.If(sp[2] - sp[1] >= 0, sp[2] - sp[1], z3.IntVal(0))
                 out_shape.append(z3.simplify(n))
-                src_idx.append(sp[1] + b)
+                src_idx.append(z3.simplify(sp[1] + b))
             else:
                 src_idx.append(sp[1])
         data = self.fresh("slice", arr_sort(arr.elem, len(out_shape)))
@@ -1056,7 +1056,7 @@ class Engine:
                 c = self.fresh("c", I)
                 cvs.append(c)
                 src2.append(c)
-                out2.append(c - sp[1])
+                out2.append(z3.simplify(c - sp[1]))
                 rng.append(z3.And(c >= sp[1], c < sp[2]))
             else:
                 src2.append(sp[1])
